@@ -741,6 +741,109 @@ fn main() {
             w.rec.end_case(c, true);
         }
 
+        // ================= two blocks of one slot repaired concurrently; a repair re-requested while in flight =================
+        {
+            let n = rng.range(1, max_n) as usize;
+            let slot = rng.range(2, 30);
+            w.begin("repair-two-blocks-one-slot");
+            let specs_a = honest_specs(&mut rng, n, slot, 1);
+            let built_a: Vec<Built> = specs_a.iter().map(|s| w.build(slot, s)).collect();
+            let a = w.declare(slot, built_a);
+            let nb = rng.range(1, max_n) as usize;
+            let specs_b = honest_specs(&mut rng, nb, slot, 700);
+            let built_b: Vec<Built> = specs_b.iter().map(|s| w.build(slot, s)).collect();
+            let b = w.declare(slot, built_b);
+            w.repair_block(slot, a.hid, &a.hash);
+            w.repair_block(slot, b.hid, &b.hash);
+            let mut guard = 0usize;
+            let mut rerequested = 0;
+            loop {
+                guard += 1;
+                let out = w.outstanding();
+                if out.is_empty() || guard > 6000 { break; }
+                // correct answers only, in any order; sometimes a timeout; sometimes the pool asks again for a block
+                // whose repair is in flight (duplicate repair requests are normal)
+                let roll = rng.below(100);
+                if roll < 4 {
+                    w.timeout();
+                    continue;
+                }
+                if roll < 8 && rerequested < 6 {
+                    rerequested += 1;
+                    let which = if rng.chance(1, 2) { &a } else { &b };
+                    let (hid, h) = (which.hid, which.hash.clone());
+                    w.repair_block(slot, hid, &h);
+                    continue;
+                }
+                let req = out[rng.below(out.len() as u64) as usize].clone();
+                let h = match &req { RepairRequestType::LastSliceRoot((_, h)) | RepairRequestType::SliceRoot((_, h), _) | RepairRequestType::Shred((_, h), _, _) => h.clone() };
+                let blk = if h == a.hash { &a } else { &b };
+                let (op, resp) = correct_response(&w, blk, &req);
+                if !w.respond(op, resp, "correct") { break; }
+            }
+            for (blk, specs) in [(&a, &specs_a), (&b, &specs_b)] {
+                let res = w.q_blk(slot, blk.hid, &blk.hash);
+                let txs: Vec<u64> = specs.iter().flat_map(|s| s.txs.clone().unwrap()).collect();
+                let outs = w.outstanding().iter().map(|r| w.req_str(r)).collect::<Vec<_>>();
+                w.rec.oracle(res.as_ref().is_some_and(|(h, _, ids)| *h == blk.hash && *ids == txs), "repair-derailed", || {
+                    format!("two blocks of slot {slot} under repair at once, every request answered correctly ({rerequested} duplicate repair requests): block {} was not completed; outstanding now {:?}", blk.hid, outs)
+                });
+            }
+            let c = w.class;
+            w.rec.end_case(c, true);
+        }
+
+        // ================= a repair that was started and abandoned, then the same block completes through dissemination =================
+        {
+            let n = rng.range(1, max_n) as usize;
+            let slot = rng.range(2, 30);
+            w.begin("repair-then-dissemination");
+            let specs = honest_specs(&mut rng, n, slot, 1);
+            let built: Vec<Built> = specs.iter().map(|s| w.build(slot, s)).collect();
+            let blk = w.declare(slot, built);
+            w.repair_block(slot, blk.hid, &blk.hash);
+            // answer the root requests and a few shred requests correctly: an incomplete repair entry for the hash exists
+            let mut shreds_served = 0;
+            let mut guard = 0;
+            loop {
+                guard += 1;
+                let out = w.outstanding();
+                if out.is_empty() || guard > 400 { break; }
+                let req = out[rng.below(out.len() as u64) as usize].clone();
+                if matches!(req, RepairRequestType::Shred(..)) {
+                    if shreds_served >= 3 { if out.iter().all(|r| matches!(r, RepairRequestType::Shred(..))) { break; } else { continue; } }
+                    shreds_served += 1;
+                }
+                let (op, resp) = correct_response(&w, &blk, &req);
+                if !w.respond(op, resp, "correct") { break; }
+            }
+            // now the block arrives through dissemination, completely
+            for b in &blk.built {
+                let mut idx: Vec<usize> = (0..TOTAL_SHREDS).collect();
+                rng.shuffle(&mut idx);
+                for &i in idx.iter().take(DATA_SHREDS + rng.below(8) as usize) {
+                    w.dis(slot, &b.shreds[i]);
+                }
+            }
+            let res = w.q_blk(slot, blk.hid, &blk.hash);
+            w.rec.oracle(res.as_ref().is_some_and(|(h, _, _)| *h == blk.hash), "served-after-mixed-paths", || format!("block {} of slot {slot} completed through dissemination while an unfinished repair entry for the same hash exists ({shreds_served} repaired shreds): get_block does not return it", blk.hid));
+            // and it is served to peers: last slice root, a slice root, shreds (also ones never received)
+            let bid: BlockId = (Slot::new(slot), blk.hash.clone());
+            let asks = vec![
+                RepairRequestType::LastSliceRoot(bid.clone()),
+                RepairRequestType::SliceRoot(bid.clone(), slice_index(rng.below(n as u64) as usize)),
+                RepairRequestType::Shred(bid.clone(), slice_index(rng.below(n as u64) as usize), ShredIndex::new(rng.below(TOTAL_SHREDS as u64) as usize).expect("idx")),
+                RepairRequestType::Shred(bid.clone(), slice_index(0), ShredIndex::new(TOTAL_SHREDS - 1).expect("idx")),
+            ];
+            for rq in asks {
+                let what = w.req_str(&rq);
+                let resp = w.ask(rq);
+                w.rec.oracle(matches!(resp, Some(RepairResponse::LastSliceRoot(..)) | Some(RepairResponse::SliceRoot(..)) | Some(RepairResponse::Shred(..))), "served-after-mixed-paths", || format!("request {what} for a completely held block (dissemination completed it, an unfinished repair entry exists) is not served"));
+            }
+            let c = w.class;
+            w.rec.end_case(c, true);
+        }
+
         // ================= Byzantine leader: the prefix block filed under the long block's hash =================
         {
             let n = rng.range(2, max_n.max(2)) as usize;
